@@ -528,6 +528,56 @@ def check_mac(ctx, enc_ids, joint):
     ctx.cls("mac_cases")
 
 
+def check_mac_aliasing(ctx, n, shared_input):
+    """pass-through encoders (the encoded signal *is* the input tensor) and one tensor object fed to every user:
+    the superposition is still the plain sum, user inputs are not modified, a second run gives the same result."""
+    import torch
+    from kaira.channels.base import BaseChannel
+    from kaira.constraints.base import BaseConstraint
+    from kaira.models.base import BaseModel
+    from kaira.models.multiple_access_channel import MultipleAccessChannelModel
+    seen = []
+
+    class Enc(BaseModel):
+        def forward(self, x, *a, **kw):
+            return x
+
+    class Con(BaseConstraint):
+        def forward(self, x, *a, **kw):
+            seen.append(x.clone())
+            return x
+
+    class Ch(BaseChannel):
+        def forward(self, x, *a, **kw):
+            return x
+
+    class Dec(BaseModel):
+        def forward(self, x, *a, **kw):
+            return x.clone()
+    cell = {"model": "mac", "users": n, "encoders": "pass_through", "shared_input": shared_input}
+    case = {"kind": "mac_alias", "n": n, "shared_input": shared_input}
+    m = MultipleAccessChannelModel(encoders=[Enc() for _ in range(n)], decoders=[Dec()], channel=Ch(), power_constraint=Con(), num_devices=n)
+    if shared_input:
+        t = torch.arange(1.0, 7.0).reshape(2, 3)
+        xs = [t for _ in range(n)]
+    else:
+        xs = [torch.full((2, 3), float(j + 1)) for j in range(n)]
+    before = [x.clone() for x in xs]
+    exp = sum(before)
+    ok, out1 = ctx.call(lambda: m(xs), "C17.m_raises", cell, case, checker=CHK)
+    if not ok:
+        return
+    ok, out2 = ctx.call(lambda: m(xs), "C17.m_raises", cell, case, checker=CHK)
+    if not ok:
+        return
+    ctx.ev()
+    ctx.nontrivial("macalias", n, shared_input)
+    good = len(seen) == 2 and torch.allclose(seen[0], exp) and torch.allclose(seen[1], exp) and all(torch.equal(a, b) for a, b in zip(xs, before)) and torch.allclose(out1, out2)
+    ctx.check(bool(good), "C17.m_superposition", cell, case, {"first_sum_00": float(seen[0][0, 0]) if seen else None, "second_sum_00": float(seen[1][0, 0]) if len(seen) > 1 else None,
+                                                              "inputs_unchanged": all(torch.equal(a, b) for a, b in zip(xs, before))}, {"sum_00": float(exp[0, 0])},
+              "with pass-through encoders the superposition is not the plain sum of the users' signals (or user inputs are overwritten)", CHK)
+
+
 def unit_misc(ctx, n_gen):
     for L in range(0, 5):
         for conds in itertools.product([False, True], repeat=L):
@@ -541,6 +591,10 @@ def unit_misc(ctx, n_gen):
             if n <= 3 or len(set(ids)) in (1, 2, n):
                 for joint in (True, False):
                     check_mac(ctx, ids, joint)
+
+    for n in range(1, 5):
+        for shared in (False, True):
+            check_mac_aliasing(ctx, n, shared)
 
     def f(t):
         conds, d = t
@@ -561,6 +615,8 @@ def check_case(ctx, cell, case):
         check_branching(ctx, case["conds"], case["default"], case["x"])
     elif k == "feedback":
         check_feedback(ctx, case["iters"])
+    elif k == "mac_alias":
+        check_mac_aliasing(ctx, case["n"], case["shared_input"])
     elif k == "mac":
         check_mac(ctx, case["enc_ids"], case["joint"])
 
